@@ -261,7 +261,7 @@ mutual
     | f :: rest => prefixedPrevious prefixed f || prefixedPreviousL prefixed rest
 end
 
-def c06 (g : Globals) (d : Builder.Decl) (allowUnsupported : Bool := false) : Option String :=
+def c06 (g : Globals) (d : Builder.Decl) (allowUnsupported : Bool := false) (ddlOnly : Bool := false) : Option String :=
   if !allowUnsupported && unsupportedFields d.fields then some "excluded:unsupported-go-type"
   else if columnCounts d.fields == 0 then some "excluded:no-columns"
   else if prefixedPreviousL false d.fields then some "previous-name-in-prefixed-embedded-struct"
@@ -270,6 +270,7 @@ def c06 (g : Globals) (d : Builder.Decl) (allowUnsupported : Bool := false) : Op
       n.startsWith "index_columns:")) d.fields then some "previous-name-with-index"
   else if anyTags indexBeforeColumn d.fields then some "index-tag-before-column-tag"
   else if anyTags (fun t => ((toUpperAscii t).splitOn "PRIMARY KEY").length > 1) d.fields then some "comment-contains-primary-key"
+  else if ddlOnly then none      -- the builder's text itself is judged for every dialect; only loading it is dialect-limited
   else match g.dialect with
     | .mysql => none
     | .postgres => some "postgres-builder-output"
